@@ -204,6 +204,141 @@ func OrderFacts(f *hc.Facts) {
 	f.Const("diffLimitUser", pkgDir, "diffLimitUser")
 	routingFacts(f)
 	SkipFacts(f)
+	guardFacts(f)
+}
+
+var guardNames = map[string]int{"diff.NewMessages": 0, "diff.NewEncryptedMessages": 1, "own": 2, "converted": 3, "rest": 4, "others": 5}
+
+// guardOf finds the first call of `callee` under the statements and returns the guard of the
+// innermost enclosing `if`: the codes of the lists whose non-emptiness (`len(X) > 0`, joined by
+// `||`) enables the call; [100] if the call is not inside any `if`; nil if the shape is not recognised.
+func guardOf(f *hc.Facts, sts []ast.Stmt, callee string) ([]int, string) {
+	var found bool
+	var guard []int
+	why := "no call of " + callee
+	var walk func(n ast.Node, enclosing *ast.IfStmt)
+	walk = func(n ast.Node, enclosing *ast.IfStmt) {
+		if n == nil || found {
+			return
+		}
+		switch x := n.(type) {
+		case *ast.FuncLit:
+			return
+		case *ast.IfStmt:
+			if x.Init != nil {
+				walk(x.Init, enclosing) // `if err := s.dispatch(...); err != nil`: the call is in Init, guarded by the outer if
+			}
+			walk(x.Cond, enclosing)
+			walk(x.Body, x)
+			if x.Else != nil {
+				walk(x.Else, enclosing)
+			}
+			return
+		case *ast.CallExpr:
+			if callName(x.Fun) == callee {
+				found = true
+				if enclosing == nil {
+					guard, why = []int{100}, ""
+					return
+				}
+				var terms []ast.Expr
+				var split func(e ast.Expr)
+				split = func(e ast.Expr) {
+					if b, ok := e.(*ast.BinaryExpr); ok && b.Op.String() == "||" {
+						split(b.X)
+						split(b.Y)
+						return
+					}
+					if p, ok := e.(*ast.ParenExpr); ok {
+						split(p.X)
+						return
+					}
+					terms = append(terms, e)
+				}
+				split(enclosing.Cond)
+				for _, t := range terms {
+					src := strings.Join(strings.Fields(f.Src(t)), "")
+					ok := false
+					for name, code := range guardNames {
+						if src == "len("+name+")>0" {
+							guard = append(guard, code)
+							ok = true
+						}
+					}
+					if !ok {
+						guard, why = nil, "unrecognised guard term: "+src
+						return
+					}
+				}
+				why = ""
+				return
+			}
+		}
+		// generic descent
+		ast.Inspect(n, func(c ast.Node) bool {
+			if c == n || c == nil || found {
+				return c == n
+			}
+			walk(c, enclosing)
+			return false
+		})
+	}
+	for _, st := range sts {
+		walk(st, nil)
+	}
+	if !found {
+		return nil, why
+	}
+	return guard, why
+}
+
+func leanNats(xs []int) string {
+	p := make([]string, len(xs))
+	for i, x := range xs {
+		p[i] = fmt.Sprint(x)
+	}
+	return "[" + strings.Join(p, ", ") + "]"
+}
+
+// guardFacts: which lists must be non-empty for the dispatch / re-route calls to happen
+// (codes: 0 new_messages, 1 new_encrypted_messages, 2 own, 3 converted, 4 rest, 5 others, 100 unconditional).
+func guardFacts(f *hc.Facts) {
+	emit := func(lean string, sts []ast.Stmt, callee, where string) {
+		if sts == nil {
+			f.Raw(fmt.Sprintf("def %s : List Nat := missing_fact_%s -- %s not found", lean, lean, where))
+			return
+		}
+		g, why := guardOf(f, sts, callee)
+		if g == nil {
+			f.Raw(fmt.Sprintf("def %s : List Nat := missing_fact_%s -- %s: %s", lean, lean, where, why))
+			return
+		}
+		f.Raw(fmt.Sprintf("def %s : List Nat := %s -- %s: lists whose non-emptiness guards %s", lean, leanNats(g), where, callee))
+	}
+	body := func(name string) []ast.Stmt {
+		if fd := f.FuncDecl(pkgDir, name); fd != nil && fd.Body != nil {
+			return fd.Body.List
+		}
+		return nil
+	}
+	emit("applyPtsGuard", body("internalState.applyPts"), "dispatch", "internalState.applyPts")
+	emit("applyQtsGuard", body("internalState.applyQts"), "dispatch", "internalState.applyQts")
+	emit("chApplyPtsGuard", body("channelState.applyPts"), "dispatch", "channelState.applyPts")
+	clause := func(fn, typ string) []ast.Stmt {
+		if fd := f.FuncDecl(pkgDir, fn); fd != nil && fd.Body != nil {
+			_, cl := typeSwitch(fd)
+			if cc := cl[typ]; cc != nil {
+				return cc.Body
+			}
+		}
+		return nil
+	}
+	emit("diffGuard", clause("internalState.getDifference", "UpdatesDifference"), "dispatch", "case *tg.UpdatesDifference")
+	emit("sliceGuard", clause("internalState.getDifference", "UpdatesDifferenceSlice"), "dispatch", "case *tg.UpdatesDifferenceSlice")
+	emit("chDiffGuard", clause("channelState.getDifference", "UpdatesChannelDifference"), "dispatch", "case *tg.UpdatesChannelDifference")
+	emit("diffRerouteGuard", clause("internalState.getDifference", "UpdatesDifference"), "handleUpdates", "case *tg.UpdatesDifference")
+	emit("sliceRerouteGuard", clause("internalState.getDifference", "UpdatesDifferenceSlice"), "handleUpdates", "case *tg.UpdatesDifferenceSlice")
+	emit("chSendOutGuard", clause("channelState.getDifference", "UpdatesChannelDifference"), "sendOut", "case *tg.UpdatesChannelDifference")
 }
 
 // SkipFacts: in the conversion loop of internalState.applyPts / channelState.applyPts, which statement
